@@ -279,6 +279,49 @@ def rule_hidden(ctx):
                 ctx.violation("C09.a", mod, fn, f"{label} lists {obj}", loc,
                               f"the statement generated for {label} has a WHERE clause that is definitely TRUE for fakesnow's internal "
                               f"object {obj} ({row['type'] or 'schema'}): it is listed among the user's objects")
+    # the filters that hide fakesnow's own objects hide nothing of the user's: every LIKE / NOT LIKE test on the object name is
+    # evaluated for a user table whose (quoted, lower-case) name merely contains `_fs_` in the middle
+    def likes(p_):
+        if not isinstance(p_, tuple):
+            return []
+        if p_[0] == "like":
+            return [p_]
+        if p_[0] in ("and", "or"):
+            return [x for q_ in p_[1] for x in likes(q_)]
+        if p_[0] == "not":
+            return likes(p_[1])
+        return []
+
+    n_like = 0
+    for label, mod, fn, sqlv, site in ls:
+        try:
+            st_ = sqlt.split_statements(sqlt.tokenize(sqlv))[0]
+            wp_ = sqlt.where_pred(st_)
+        except Exception:  # noqa: BLE001
+            continue
+        tabs_ = [n[-1].text.lower() for n in sqlt.from_tables(st_)]
+        rel_ = next((t for t in tabs_ if t in COLMAP), None)
+        if rel_ is None or rel_ == "schemata" or not wp_:
+            continue
+        if not likes(wp_[0]):
+            continue
+
+        def urow(uname):
+            return {"catalog": USERDB, "schema": "S1", "name": uname, "type": "BASE TABLE", "kind": "table", "constraint": "PRIMARY KEY"}
+        # the whole predicate, three-valued, for two user tables that differ in their name only: the adversarial name alone must
+        # not turn the answer into a definite FALSE
+        r_plain = ev(wp_[0], urow("orders"), COLMAP[rel_], {"CUR_DB", "CURDBVIEW"})
+        r_adv = ev(wp_[0], urow("dwh_fs_keys"), COLMAP[rel_], {"CUR_DB", "CURDBVIEW"})
+        n_like += 1
+        hidden = r_adv is False and r_plain is not False
+        loc_ = f"fakesnow/{mod}.py:{getattr(site, 'lineno', 0)}"
+        ctx.ob("C09.a", f"{label}: the internal-object filter keeps the user table `dwh_fs_keys`", not hidden, loc_, f"orders: {r_plain}, dwh_fs_keys: {r_adv}")
+        if hidden:
+            ctx.violation("C09.a", mod, fn, f"{label} hides the user table dwh_fs_keys", loc_,
+                          f"the WHERE clause of {label} is definitely FALSE for a user table called `dwh_fs_keys` (a quoted lower-case name that only "
+                          f"contains `_fs_`) and not for `orders`: the table disappears from this listing while information_schema and the other "
+                          f"listings still show it")
+    ctx.floor("C09.a name filters evaluated on user tables", n_like, 4)
     # pass-through of information_schema.tables / columns: no filter at all
     for view, stage in (("information_schema.tables", "information_schema_fs_tables_ext"), ("information_schema.columns", "information_schema_fs_columns_snowflake")):
         fnode = prog.modules["transforms"].functions.get(stage)
